@@ -62,3 +62,41 @@ Theorem C02_project_tab : forall K (O : Ops K) sh ax v (psi : tensor (K:=K)),
   project O sh ax v (tab sh psi) = tab sh (tproject O ax v psi).
 Proof. exact @project_tab. Qed.
 Print Assumptions C02_project_tab.
+
+(* ---- terminal measurements (Sim/TerminalMeasProofs.v): the simulators' fast path ----
+   A circuit of gates followed by measurements only (invert masks, repeated keys and qudits allowed) gives exactly one
+   branch per joint outcome: the projection of the final state; its probability is the squared norm of that projection
+   (joint Born rule), and the probabilities add up to the norm of the final state. *)
+From VF Require Import Sim.Ref Sim.ExecComm Sim.TerminalMeas Sim.TerminalMeasProofs Base.Trace.
+Theorem C02_exec_terminal : forall K (O : Ops K), Laws O -> forall sh gs ms (init : list K),
+  length init = length (enum sh) -> exec O sh (terminal_ops gs ms) init = terminal_ensemble O sh gs ms init.
+Proof. exact @exec_terminal. Qed.
+Print Assumptions C02_exec_terminal.
+Theorem C02_exec_terminal_born : forall K (O : Ops K), Laws O -> forall sh gs ms (init : list K) vs,
+  length init = length (enum sh) -> NoDup (map ms_key ms) -> In vs (joint_outcomes sh ms) ->
+  keyrec_mass O (term_kvs sh ms vs) (exec O sh (terminal_ops gs ms) init) = born O sh gs ms init vs.
+Proof. exact @exec_terminal_keyrec_mass. Qed.
+Print Assumptions C02_exec_terminal_born.
+Theorem C02_exec_terminal_total_mass : forall K (O : Ops K), Laws O -> forall sh gs ms (init : list K),
+  length init = length (enum sh) ->
+  total_mass O (exec O sh (terminal_ops gs ms) init) = norm2 O (circ_state O sh gs init).
+Proof. exact @exec_terminal_total_mass. Qed.
+Print Assumptions C02_exec_terminal_total_mass.
+(* deferred measurement: when no later operation touches a measurement's qubits or key (terminal_b, a boolean evaluated
+   on real circuits), the measurements can be moved to the end by exchanges of independent operations, so the circuit
+   has the joint Born distribution of the final state of its gates - for every operation list, register shape and state *)
+Theorem C02_defer_teq : forall K (ops : list (mop (K:=K))), terminal_b ops = true -> teq mop_dep ops (defer ops).
+Proof. exact @defer_teq. Qed.
+Print Assumptions C02_defer_teq.
+Theorem C02_deferred_born : forall K (O : Ops K), Laws O -> forall sh ops (init : list K) vs,
+  terminal_b ops = true -> simple_b ops = true -> Forall (mop_wf sh) ops -> length init = length (enum sh) ->
+  NoDup (map ms_key (meas_of ops)) -> In vs (joint_outcomes sh (meas_of ops)) ->
+  keyrec_mass O (term_kvs sh (meas_of ops) vs) (exec O sh ops init) = born O sh (gates_of ops) (meas_of ops) init vs.
+Proof. exact @deferred_born. Qed.
+Print Assumptions C02_deferred_born.
+(* the condition is needed: measuring and then acting on the measured qubit is not its deferred form (exact witness) *)
+Theorem C02_deferred_needs_terminal_refuted : exists sh ops (init : list K8) kvs,
+  simple_b ops = true /\ Forall (mop_wf sh) ops /\ length init = length (enum sh) /\ terminal_b ops = false /\
+  keyrec_mass K8Ops kvs (exec K8Ops sh ops init) <> keyrec_mass K8Ops kvs (exec K8Ops sh (defer ops) init).
+Proof. exact deferred_needs_terminal_refuted. Qed.
+Print Assumptions C02_deferred_needs_terminal_refuted.
